@@ -193,8 +193,132 @@ def gen_ifaces():
     return {"main.go": src}
 
 
+# ---------------------------------------------------------------- interface-to-interface assertions and promoted unexported methods across packages
+# Pools of interfaces and concrete types whose methods differ only in signature or in the package owning an unexported name. For every concrete type C,
+# every interface I that C implements and every interface J of the pool: `var i I = C{}; j, ok := i.(J)` (and a type switch over the pool) must decide as
+# Go does, and a successful assertion must yield a usable method table (the first method is called through it).
+I2I_P = """package %(pk)s
+
+type Tagger interface{ tag() string }
+
+type TagArea interface {
+	tag() string
+	Area() int
+}
+
+type %(T)s struct{}
+
+func (%(T)s) tag() string { return "%(pk)s.%(T)s.tag" }
+func (%(T)s) Area() int   { return %(n)d }
+
+func UseTagger(t Tagger) string   { return t.tag() }
+func UseTagArea(t TagArea) string { return t.tag() + string(rune('0'+t.Area())) }
+"""
+
+
+def gen_i2i():
+    # interface -> (Go expression, method set, how to call its first method on variable j)
+    ifs = [
+        ("AreaI", "AreaI", {("Area", "int")}, "itoa(int64(j.Area()))"),
+        ("AreaF", "AreaF", {("Area", "float64")}, "itoa(int64(j.Area() * 2))"),
+        ("NameI", "NameI", {("Name", "()")}, "j.Name()"),
+        ("Name1", "Name1", {("Name", "(int)")}, "j.Name(1)"),
+        ("AreaName", "AreaName", {("Area", "int"), ("Name", "()")}, "itoa(int64(j.Area())) + j.Name()"),
+        ("AreaFName", "AreaFName", {("Area", "float64"), ("Name", "()")}, "j.Name()"),
+        ("pTagger", "p.Tagger", {("p.tag", "")}, "p.UseTagger(j)"),
+        ("qTagger", "q.Tagger", {("q.tag", "")}, "q.UseTagger(j)"),
+        ("pTagArea", "p.TagArea", {("p.tag", ""), ("Area", "int")}, "p.UseTagArea(j)"),
+        ("qTagArea", "q.TagArea", {("q.tag", ""), ("Area", "int")}, "q.UseTagArea(j)"),
+        ("mTagger", "mTagger", {("main.tag", "")}, "j.tag()"),
+    ]
+    cs = [
+        ("T1", "T1{}", {("Area", "int"), ("Name", "()")}),
+        ("T2", "T2{}", {("Area", "float64"), ("Name", "(int)")}),
+        ("pPT", "p.PT{}", {("p.tag", ""), ("Area", "int")}),
+        ("qQT", "q.QT{}", {("q.tag", ""), ("Area", "int")}),
+        ("WP", "WP{}", {("p.tag", ""), ("Area", "int")}),
+        ("WQ", "WQ{&q.QT{}}", {("q.tag", ""), ("Area", "int")}),
+        ("WB", "WB{}", {("p.tag", ""), ("Area", "int"), ("Name", "()")}),
+        ("WI", "WI{p.PT{}}", {("p.tag", ""), ("Area", "int")}),
+        ("MT", "MT{}", {("main.tag", ""), ("Area", "int")}),
+    ]
+    decls = """
+type AreaI interface{ Area() int }
+type AreaF interface{ Area() float64 }
+type NameI interface{ Name() string }
+type Name1 interface{ Name(int) string }
+type AreaName interface {
+	Area() int
+	Name() string
+}
+type AreaFName interface {
+	Area() float64
+	Name() string
+}
+type mTagger interface{ tag() string }
+
+type T1 struct{}
+
+func (T1) Area() int    { return 7 }
+func (T1) Name() string { return "T1" }
+
+type T2 struct{}
+
+func (T2) Area() float64      { return 1.5 }
+func (T2) Name(k int) string { return "T2" }
+
+type WP struct{ p.PT }
+type WQ struct{ *q.QT }
+type WB struct {
+	p.PT
+	name string
+}
+
+func (WB) Name() string { return "WB" }
+
+type WI struct{ p.TagArea }
+type MT struct{}
+
+func (MT) tag() string { return "main.MT.tag" }
+func (MT) Area() int   { return 3 }
+
+func try(f func() string) (s string) {
+	defer func() {
+		if recover() != nil {
+			s = "PANIC"
+		}
+	}()
+	return f()
+}
+"""
+    main = []
+    n = 0
+    for cn, cexpr, cms in cs:
+        for iname, iexpr, ims, _ in ifs:
+            if not ims <= cms:
+                continue
+            body = ["\t\tout := \"\"", "\t\tvar i %s = %s" % (iexpr, cexpr)]
+            for jname, jexpr, jms, jcall in ifs:
+                body.append("\t\tif j, ok := i.(%s); ok {\n\t\t\tout += \"%s:\" + try(func() string { return %s }) + \" \"\n\t\t} else {\n\t\t\tout += \"%s:no \"\n\t\t}" % (jexpr, jname, jcall, jname))
+                n += 1
+            # a type switch over the pool in two orders: the first matching case
+            for order, lab in ((ifs, "sw"), (list(reversed(ifs)), "ws")):
+                body.append("\t\tswitch i.(type) {\n" + "".join("\t\tcase %s:\n\t\t\tout += \"%s=%s \"\n" % (jexpr, lab, jname) for jname, jexpr, _, _ in order) + "\t\t}")
+            main.append("\tcases = append(cases, func() {\n%s\n\t\temit(\"i2i/%s/%s\", out)\n\t})" % ("\n".join(body), cn, iname))
+    # static conversions to the other packages' interfaces and from any
+    stat = ["\t\tout := \"\""]
+    for cn, cexpr, cms in cs:
+        for jname, jexpr, jms, jcall in ifs:
+            if jms <= cms and jname in ("pTagger", "qTagger", "pTagArea", "qTagArea"):
+                stat.append("\t\tout += \"%s>%s:\" + try(func() string { var j %s = %s; return %s }) + \" \"" % (cn, jname, jexpr, cexpr, jcall))
+            stat.append("\t\tif j, ok := any(%s).(%s); ok {\n\t\t\tout += \"any(%s)>%s:\" + try(func() string { return %s }) + \" \"\n\t\t} else {\n\t\t\tout += \"any(%s)>%s:no \"\n\t\t}" % (cexpr, jexpr, cn, jname, jcall, cn, jname))
+    main.append("\tcases = append(cases, func() {\n%s\n\t\temit(\"i2i/static-and-any\", out)\n\t})" % "\n".join(stat))
+    src = PRELUDE.replace('import (\n\t"os"\n\t"unsafe"\n)', 'import (\n\t"os"\n\t"unsafe"\n\n\t"vt/p"\n\t"vt/q"\n)') + "\nvar cases []func()\n" + decls + "\nfunc main() {\n" + "\n".join(main) + "\n\trunAll(cases)\n}\n"
+    return {"main.go": src, "p/p.go": I2I_P % dict(pk="p", T="PT", n=1), "q/q.go": I2I_P % dict(pk="q", T="QT", n=2)}
+
+
 def programs(tier):
-    return {"identity": gen_identity(), "ifaces": gen_ifaces()}
+    return {"identity": gen_identity(), "ifaces": gen_ifaces(), "i2i": gen_i2i()}
 
 
 if __name__ == "__main__":
